@@ -251,3 +251,80 @@ func recordStop(args []string) int {
 	}
 	return 0
 }
+
+func init() {
+	commands["record-map"] = recordMap
+}
+
+// recordMap runs programs with the verif hooks on and writes the map
+// events (MapLit, SetKey, Delete, RangeStart/Next/End, ForEnter/Exit) as
+// NDJSON for validation by spec/EvyMapTrace.tla.
+func recordMap(args []string) int {
+	fs := flag.NewFlagSet("record-map", flag.ExitOnError)
+	inPath := fs.String("in", "", "ndjson: {id, src}")
+	outPath := fs.String("out", "", "trace ndjson")
+	fs.Parse(args)
+	in, err := os.Open(*inPath)
+	if err != nil {
+		fmt.Fprintln(os.Stderr, err)
+		return 2
+	}
+	defer in.Close()
+	out, err := os.Create(*outPath)
+	if err != nil {
+		fmt.Fprintln(os.Stderr, err)
+		return 2
+	}
+	defer out.Close()
+	w := bufio.NewWriter(out)
+	defer w.Flush()
+	emit := func(m map[string]any) {
+		b, _ := json.Marshal(m)
+		w.Write(b)
+		w.WriteByte('\n')
+	}
+	sc := bufio.NewScanner(in)
+	sc.Buffer(make([]byte, 1<<20), 1<<26)
+	for sc.Scan() {
+		var c struct {
+			ID    string `json:"id"`
+			Src   string `json:"src"`
+			MaxEv int    `json:"maxEvents"`
+		}
+		if err := json.Unmarshal(sc.Bytes(), &c); err != nil {
+			continue
+		}
+		prog, perr := parser.Parse(c.Src, evaluator.BuiltinDecls())
+		if perr != nil {
+			continue
+		}
+		emit(map[string]any{"ev": "Reset", "id": c.ID, "map": "", "key": "", "order": []string{}, "keys": []string{}})
+		plat := newRecPlatform(nil, 0)
+		n := 0
+		evaluator.VerifTrace = func(ev string, f map[string]any) {
+			switch ev {
+			case "MapLit", "SetKey", "Delete", "RangeStart", "RangeNext", "RangeEnd":
+				n++
+				if c.MaxEv > 0 && n > c.MaxEv {
+					plat.y.ev.Stopped = true
+					return
+				}
+				f["ev"] = ev
+				emit(f)
+			case "ForEnter", "ForExit":
+				if c.MaxEv > 0 && n > c.MaxEv {
+					return
+				}
+				emit(map[string]any{"ev": ev, "map": "", "key": "", "order": []string{}, "keys": []string{}})
+			}
+		}
+		ev := evaluator.NewEvaluator(plat)
+		plat.y.ev = ev
+		func() {
+			defer func() { recover() }()
+			ev.Eval(prog)
+		}()
+		evaluator.VerifTrace = nil
+	}
+	return 0
+}
